@@ -22,6 +22,7 @@ fn streams(rng: &mut StdRng, n: usize, max: u64) -> Vec<StreamSpec> {
             reset_at: None,
             stop_at: None,
             start_us: pick(rng, &[0u64, 0, 1_000, 50_000]),
+            ..Default::default()
         }
     }).collect()
 }
@@ -109,6 +110,62 @@ pub fn scenario(family: &str, seed: u64) -> Scenario {
                 l.sd_bidi_local = pick(rng, &[1000u64, 4096, 1 << 18]);
                 l.sd_uni = pick(rng, &[1000u64, 4096, 1 << 18]);
                 l.data_window = pick(rng, &[3000u64, 1 << 20]);
+            }
+        }
+        // streams that are blocked on the peer's window, or already finished, when they get reset / stopped,
+        // under heavy loss: retransmission of frames queued around the reset
+        "late_reset" => {
+            net.drop = pick(rng, &[300u32, 450]);
+            net.hold = pick(rng, &[0u32, 100]);
+            net.heal_at_us = Some(pick(rng, &[3_000_000u64, 8_000_000]));
+            net.skip_first = 6;
+            let n = rng.random_range(2..5);
+            sc.streams = streams(rng, n, 30_000);
+            // one mode per run, applied to every stream
+            let mode = rng.random_range(0..3);
+            for l in [&mut sc.c, &mut sc.s] {
+                let w = if mode == 0 { pick(rng, &[500u64, 2000]) } else { pick(rng, &[2000u64, 1 << 18]) };
+                l.sd_bidi_remote = w;
+                l.sd_bidi_local = w;
+                l.sd_uni = w;
+            }
+            for sp in &mut sc.streams {
+                sp.send = sp.send.max(3000);
+                sp.chunk = sp.chunk.max(1000);
+                sp.start_us = 0;
+                match mode {
+                    // blocked on the stream window (the reader is slow), then reset after a while
+                    0 => {
+                        sp.reset_at = Some(sp.send);
+                        sp.reset_delay_us = pick(rng, &[50_000u64, 200_000, 600_000]);
+                        sp.read_start_delay_us = 5_000_000;
+                    }
+                    // finished, then reset by the application
+                    1 => sp.reset_after_finish_us = pick(rng, &[1_000u64, 60_000, 200_000, 500_000]),
+                    // finished, the peer stops the stream late
+                    _ => {
+                        sp.stop_at = Some(0);
+                        sp.read_start_delay_us = pick(rng, &[60_000u64, 200_000, 500_000, 1_000_000]);
+                    }
+                }
+            }
+        }
+        // many short streams against small, asymmetric stream-count limits (MAX_STREAMS credit)
+        "many_streams" => {
+            net.drop = pick(rng, &[0u32, 50, 150]);
+            net.heal_at_us = Some(10_000_000);
+            let n = rng.random_range(6..12);
+            sc.streams = streams(rng, n, 2_000);
+            let uni_heavy = rng.random_bool(0.5);
+            for sp in &mut sc.streams {
+                sp.bidi = if uni_heavy { rng.random_bool(0.2) } else { rng.random_bool(0.8) };
+                if !sp.bidi { sp.reply = 0; }
+                sp.start_us = 0;
+                sp.chunk = sp.chunk.max(100);
+            }
+            for l in [&mut sc.c, &mut sc.s] {
+                let (small, big) = (pick(rng, &[1u64, 2, 3]), pick(rng, &[5u64, 100]));
+                if uni_heavy { l.streams_uni = small; l.streams_bidi = big; } else { l.streams_bidi = small; l.streams_uni = big; }
             }
         }
         _ => panic!("unknown family {family}"),
